@@ -25,8 +25,8 @@ import (
 	"bufio"
 	"bytes"
 	"context"
-	"io"
 	"fmt"
+	"io"
 	"math/rand"
 	"strconv"
 	"strings"
@@ -309,6 +309,12 @@ type trackedBody struct {
 	inUse      atomic.Int32
 	lateUses   atomic.Int32
 	overlapped atomic.Int32
+	uses       atomic.Int32
+	// gated rounds: once armed, the library's next use of the body announces itself (entered) and stays inside the body
+	// for up to 2 ms or until the application lets it go (release): the application gives up exactly then
+	armed   atomic.Bool
+	entered chan struct{}
+	release chan struct{}
 }
 
 func (t *trackedBody) enter() {
@@ -316,6 +322,18 @@ func (t *trackedBody) enter() {
 		t.lateUses.Add(1)
 	}
 	t.inUse.Add(1)
+	t.uses.Add(1)
+	if t.armed.CompareAndSwap(true, false) {
+		select {
+		case t.entered <- struct{}{}:
+		default:
+		}
+		select {
+		case <-t.release:
+		case <-time.After(2 * time.Millisecond):
+		}
+		return
+	}
 	spin(15 * time.Microsecond)
 }
 func (t *trackedBody) Read(p []byte) (int, error) {
@@ -338,41 +356,60 @@ func (t *trackedBody) handBack() {
 }
 
 func runBWMeet(seed int64, rounds int, bodySize int) string {
-	cc, s := mem.NewUDPConn(mem.UDPOpts{Blockwise: true, BlockwiseSZX: blockwise.SZX16, BlockwiseTimeout: 200 * time.Millisecond,
-		Mutate: func(cfg *udpclient.Config) {
-			cfg.LimitClientParallelRequests = 8
-			cfg.LimitClientEndpointParallelRequests = 8
-			cfg.TransmissionAcknowledgeTimeout = time.Second
-			cfg.Handler = func(*responsewriter.ResponseWriter[*udpclient.Conn], *pool.Message) {}
-		}})
 	rng := rand.New(rand.NewSource(seed))
 	var mu sync.Mutex
 	var last *pool.Message
-	s.OnWrite = func(data []byte) {
+	var curTok message.Token
+	onWrite := func(data []byte) {
 		m := pool.NewMessage(context.Background())
 		if _, err := m.UnmarshalWithDecoder(udpcoder.DefaultCoder, data); err != nil {
 			return
 		}
-		if m.Code() == codes.POST {
-			mu.Lock()
+		mu.Lock()
+		if m.Code() == codes.POST && bytes.Equal(m.Token(), curTok) && last == nil { // the first block of THIS round's request
 			last = m
-			mu.Unlock()
 		}
+		mu.Unlock()
 	}
+	// A write from the receive path that fails (here: the next block, written with the context of the request the application
+	// has just given up) closes the connection: the rounds get a fresh connection whenever the current one is gone.
+	newConn := func() (*udpclient.Conn, *mem.UDPSession) {
+		c, s := mem.NewUDPConn(mem.UDPOpts{Blockwise: true, BlockwiseSZX: blockwise.SZX16, BlockwiseTimeout: 200 * time.Millisecond,
+			Mutate: func(cfg *udpclient.Config) {
+				cfg.LimitClientParallelRequests = 8
+				cfg.LimitClientEndpointParallelRequests = 8
+				cfg.TransmissionAcknowledgeTimeout = time.Second
+				cfg.Handler = func(*responsewriter.ResponseWriter[*udpclient.Conn], *pool.Message) {}
+			}})
+		s.OnWrite = onWrite
+		return c, s
+	}
+	cc, _ := newConn()
+	conns := 1
 	body := make([]byte, bodySize)
 	for i := range body {
 		body[i] = byte(i * 7)
 	}
 	met, late, overlapped := 0, 0, 0
+	var gatedRounds, gatedEntered atomic.Int32
 	for r := 0; r < rounds; r++ {
+		select {
+		case <-cc.Done():
+			cc, _ = newConn()
+			conns++
+		default:
+		}
+		tok := message.Token{0xB0, byte(r), byte(r >> 8)}
 		mu.Lock()
 		last = nil
+		curTok = tok
 		mu.Unlock()
 		ctx, cancel := context.WithCancel(context.Background())
-		rd := &trackedBody{rd: bytes.NewReader(body)}
+		rd := &trackedBody{rd: bytes.NewReader(body), entered: make(chan struct{}, 1), release: make(chan struct{})}
+		gated := r%2 == 1 // every other round: the application gives up exactly while the library reads the body
 		req := cc.AcquireMessage(ctx)
 		req.SetCode(codes.POST)
-		tok := message.Token{0xB0, byte(r), byte(r >> 8)}
+		req.SetType(message.NonConfirmable) // the blocks written from the receive path must not wait for acknowledgements nobody sends
 		req.SetToken(tok)
 		_ = req.SetPath("/up")
 		req.SetContentFormat(message.AppOctets)
@@ -403,20 +440,23 @@ func runBWMeet(seed int64, rounds int, bodySize int) string {
 		cont := pool.NewMessage(context.Background())
 		cont.SetCode(codes.Continue)
 		cont.SetToken(first.Token())
-		cont.SetType(message.Acknowledgement)
-		cont.SetMessageID(first.MessageID())
+		cont.SetType(message.NonConfirmable)
+		cont.SetMessageID(int32(30000 + r%20000))
 		cont.SetOptionUint32(message.Block1, blk)
 		b, _ := cont.MarshalWithEncoder(udpcoder.DefaultCoder)
 		b = append([]byte(nil), b...)
-		skew := time.Duration(rng.Intn(30)) * time.Microsecond
+		skew := time.Duration(rng.Intn(300)) * time.Microsecond
 		firstActor := rng.Intn(2)
 		start := make(chan struct{})
 		var wg sync.WaitGroup
 		wg.Add(2)
+		if gated {
+			rd.armed.Store(true)
+		}
 		go func() { // the peer's Continue is processed: the library cuts the next block out of the request's body
 			defer wg.Done()
 			<-start
-			if firstActor == 1 {
+			if firstActor == 1 && !gated {
 				spin(skew)
 			}
 			_ = cc.Process(nil, b)
@@ -424,12 +464,20 @@ func runBWMeet(seed int64, rounds int, bodySize int) string {
 		go func() { // the application gives up: once the call has returned the request and its body are the application's again
 			defer wg.Done()
 			<-start
-			if firstActor == 0 {
+			if gated {
+				gatedRounds.Add(1)
+				select {
+				case <-rd.entered: // the library is inside the body now
+					gatedEntered.Add(1)
+				case <-time.After(5 * time.Millisecond):
+				}
+			} else if firstActor == 0 {
 				spin(skew)
 			}
 			cancel()
 			<-done
 			rd.handBack()
+			close(rd.release)
 			_, _ = rd.rd.Seek(0, io.SeekStart) // the application re-uses its reader
 			_, _ = rd.rd.Read(make([]byte, 8))
 			cc.ReleaseMessage(req)
@@ -446,7 +494,7 @@ func runBWMeet(seed int64, rounds int, bodySize int) string {
 	if late+overlapped > 0 {
 		return fmt.Sprintf("bad use-after-handback rounds=%d late=%d overlapped=%d", met, late, overlapped)
 	}
-	return fmt.Sprintf("ok rounds=%d", met)
+	return fmt.Sprintf("ok rounds=%d gated=%d entered=%d conns=%d", met, gatedRounds.Load(), gatedEntered.Load(), conns)
 }
 
 // spin waits without yielding to the scheduler for long: a sleep would be far too coarse
